@@ -47,7 +47,10 @@ def _perturb(values, rng, k):
         if isinstance(v, str) and '/' not in v and '.' not in v and n.startswith('choice'):
             out[n] = v
             continue
-        out[n] = f + rng.gauss(0, 1) * sig * (abs(f) + (1.0 if k % 16 >= 8 else 0.0))
+        if f == 0 and rng.random() < 0.6:
+            out[n] = 0.0          # exact zeros (zero weights, zero columns, zero targets) are often the trigger: keep them
+            continue
+        out[n] = f + rng.gauss(0, 1) * sig * (abs(f) + (1.0 if (k % 16 >= 8 or f == 0) else 0.0))
     return out
 
 
@@ -56,6 +59,14 @@ def main():
     sys.path.insert(0, VERIF)
     jit = req['jit']
     from vf.harness import run_unit_float
+    if not jit:
+        # pure-python float mode: numba type objects used as numpy dtypes are legal only under JIT
+        import numpy as _np
+        import skglm  # noqa
+        import skglm.experimental  # noqa
+        for name, m in list(sys.modules.items()):
+            if name.startswith('skglm') and m is not None and 'bool_' in m.__dict__:
+                m.__dict__['bool_'] = _np.bool_
     mod = importlib.import_module(req['module'])
     units = {u.id: u for u in mod.units(req['tier'])}
     if hasattr(mod, 'units_all'):
